@@ -50,6 +50,12 @@ CHECKS = {
             "WB on dumps of real trees in Coq, and by the oracle: identity-structural dump of the whole tree, input value, repr, both serializations, == fresh copy, "
             "3x repetition, on DSL and parsed trees.",
             "full on the model; that the audited writes are the only ones rests on the translator's scan (trusted) and on the dump oracle"),
+    "C13": ("Coq theorem over all histories of reconfigurations and calls (the live element answers as the reference that saw only the configuration operations; calls leave no trace), built on the Store.v bind theorem + write-set obligation + live-vs-fresh history oracle",
+            "C13_current/C13_last_call hold for every history, configuration type and evaluator, from the two premises that calls only re-bind declared properties "
+            "and that the reconfiguration API keeps property cells well-bound; C13_no_hidden_state re-checks on every run that the code has no store outside the "
+            "audited set (no memoised validators/helpers).  Tie: after every reconfiguration of a random history the dumped cells are checked well-bound in Coq, and "
+            "after every call the live element is compared with one freshly built from the configuration reached.",
+            "full on the model; absence of hidden state in the code rests on the translator's scan and the history oracle"),
 }
 
 REASONS_PENDING = "check under construction in this session: not yet claimed"
